@@ -7,7 +7,7 @@ Multi-simplices are not allowed.
 
 """
 
-from collections.abc import Hashable, Iterable
+from collections.abc import Hashable, Iterable, Iterator
 from copy import copy, deepcopy
 from itertools import combinations, count
 from warnings import warn
@@ -481,6 +481,9 @@ class SimplicialComplex(Hypergraph):
         if isinstance(ebunch_to_add, dict):
             faces = []  # container to store subfaces
             for idx, members in ebunch_to_add.items():
+                if isinstance(members, Iterator):  # one-shot iterable
+                    members = list(members)
+
                 # check that it does not exist yet (based on members, not ID)
                 if not members or self.has_simplex(members):
                     continue
@@ -530,6 +533,9 @@ class SimplicialComplex(Hypergraph):
             first_edge = next(new_edges)
         except StopIteration:
             return
+        if isinstance(first_edge, Iterator):  # one-shot iterable
+            first_edge = list(first_edge)
+
         try:
             first_elem = list(first_edge)[0]
         except TypeError:
@@ -572,6 +578,8 @@ class SimplicialComplex(Hypergraph):
                 _ = iter(members)
             except TypeError as e:
                 raise XGIError("Invalid ebunch format") from e
+            if isinstance(members, Iterator):  # one-shot iterable
+                members = list(members)
 
             # check that it does not exist yet (based on members, not ID)
             if not members or self.has_simplex(members):
